@@ -234,6 +234,6 @@ def strat_table(tier):
 
 
 PARTS = [
-    Part("suffix", run_suffix, strat_suffix, {"quick": 1800, "thorough": 50000}, rule=RULE),
-    Part("table", run_table, strat_table, {"quick": 500, "thorough": 10000}, rule="every one of the 16 statuses requested on a copy of the conductor at generated points and at each terminal status; cells recorded in extra"),
+    Part("suffix", run_suffix, strat_suffix, {"quick": 1800, "thorough": 18000}, rule=RULE),
+    Part("table", run_table, strat_table, {"quick": 500, "thorough": 5000}, rule="every one of the 16 statuses requested on a copy of the conductor at generated points and at each terminal status; cells recorded in extra"),
 ]
